@@ -10,6 +10,7 @@ import (
 	"net/url"
 	"sort"
 	"strings"
+	"sync"
 	"testing"
 	"time"
 
@@ -20,7 +21,7 @@ import (
 )
 
 func TestMain(m *testing.M) {
-	vstat.Rule("Frozen clock; Rebalancer(RoundRobin) with scripted meters (rating, ready) per server and back-off from {1s..30s}. State machine: upsert(i,w) with w from {1..8,10,12,100,1000,4096,5000} (and 0), remove(i), rate(i,r) r from {0,0.01,0.1,0.3,0.5,0.9,1}, ready(i,bool), advance(d) (fractions and multiples of the back-off, whole ms + 1us), request, plus composite episodes: 'outlier episode' (ratings with a non-empty outlier set by the documented rule, all ready, requests every backoff/2 for two back-offs) and 'calm episode' (equal ratings, six adjustment opportunities). Weights are read through ServerWeight() after every step. Oracle: (a) 1 <= W_i <= max(4096, conf_i) for conf_i > 0; (b) request-caused weight changes with no membership change between them are more than one back-off apart; (c) a request-caused change while the oracle's own evaluation of the rule (value > (median+MAD)*1.5, zero sentinel for even counts) marks outliers and non-outliers never increases an outlier's share (exact rationals); (d) after every upsert/remove all weights equal the configured ones; (e) an outlier loses share within two back-offs unless no non-outlier can grow below the cap; (f) after six adjustment opportunities without outliers the weights are proportional to the configured ones and stay so. A second scenario class uses the default meter with a handler failing chosen servers and asserts (a),(b),(d). Non-trivial: >= 3 weight changes, >= 1 membership change after a change, and an outlier episode followed by a calm episode.")
+	vstat.Rule("Frozen clock; Rebalancer(RoundRobin) with scripted meters (rating, ready) per server and back-off from {1s..30s}. State machine: upsert(i,w) with w from {1..8,10,12,100,1000,4096,5000} (and 0), remove(i), rate(i,r) r from {0,0.01,0.1,0.3,0.5,0.9,1}, ready(i,bool), advance(d) (fractions and multiples of the back-off, whole ms + 1us), request, plus composite episodes: 'outlier episode' (ratings with a non-empty outlier set by the documented rule, all ready, requests every backoff/2 for two back-offs) and 'calm episode' (equal ratings, six adjustment opportunities). Weights are read through ServerWeight() after every step. Oracle: (a) 1 <= W_i <= max(4096, conf_i) for conf_i > 0; (b) request-caused weight changes with no membership change between them are more than one back-off apart; (c) a request-caused change while the oracle's own evaluation of the rule (value > (median+MAD)*1.5, zero sentinel for even counts) marks outliers and non-outliers never increases an outlier's share (exact rationals); (d) after every upsert/remove all weights equal the configured ones; (e) an outlier loses share within two back-offs unless no non-outlier can grow below the cap; (f) after six adjustment opportunities without outliers the weights are proportional to the configured ones and stay so. A second scenario class uses the default meter with a handler failing chosen servers and asserts (a),(b),(d). A third (AdminOverlap) lets one whole request run at a hook point inside a re-weight/add/remove call of the rebalancer (before or after the inner balancer's own update; the harness owns that schedule by interposing on the inner balancer) after 0-6 adjustments, then touches a member and asserts (a),(d) for every configured weight incl. the re-weighted one; non-trivial there: the pool was adjusted when the overlapped call ran. Non-trivial: >= 3 weight changes, >= 1 membership change after a change, and an outlier episode followed by a calm episode.")
 	vstat.Main(m.Run)
 }
 
@@ -86,6 +87,83 @@ type world struct {
 	changes  int
 	memAfter bool
 	handler  func(u *url.URL) int
+	lb       *hookLB
+}
+
+// hookLB is the inner balancer with a one-shot hook around its own UpsertServer/RemoveServer:
+// the harness uses it to let a whole request complete (or block) at exactly that point of an
+// administration call of the rebalancer.
+type hookLB struct {
+	*roundrobin.RoundRobin
+	mu     sync.Mutex
+	hook   func()
+	before bool
+}
+
+func (l *hookLB) arm(before bool, f func()) {
+	l.mu.Lock()
+	l.hook, l.before = f, before
+	l.mu.Unlock()
+}
+
+func (l *hookLB) fire(before bool) {
+	l.mu.Lock()
+	f := l.hook
+	if f != nil && l.before == before {
+		l.hook = nil
+	} else {
+		f = nil
+	}
+	l.mu.Unlock()
+	if f != nil {
+		f()
+	}
+}
+
+func (l *hookLB) UpsertServer(u *url.URL, options ...roundrobin.ServerOption) error {
+	l.fire(true)
+	err := l.RoundRobin.UpsertServer(u, options...)
+	l.fire(false)
+	return err
+}
+
+func (l *hookLB) RemoveServer(u *url.URL) error {
+	l.fire(true)
+	err := l.RoundRobin.RemoveServer(u)
+	l.fire(false)
+	return err
+}
+
+// overlapped runs an administration call while one request is started at the hook point inside
+// it; the request either completes there or (when the call holds the rebalancer's lock) right
+// after the call. Either way the configured weights are what the next restore must bring back.
+func (w *world) overlapped(before bool, what string, admin func() error) {
+	done := make(chan struct{})
+	fired := false
+	w.lb.arm(before, func() {
+		fired = true
+		go func() {
+			defer close(done)
+			w.rb.ServeHTTP(httptest.NewRecorder(), httptest.NewRequest("GET", "http://front/", nil))
+		}()
+		select {
+		case <-done:
+		case <-time.After(time.Millisecond):
+		}
+	})
+	err := admin()
+	w.lb.arm(false, nil)
+	if err != nil {
+		w.t.Fatalf("%s: %v", what, err)
+	}
+	if fired {
+		select {
+		case <-done:
+		case <-time.After(20 * time.Second):
+			w.t.Fatalf("a request started during %s never completed\n%s", what, strings.Join(w.log, "\n"))
+		}
+	}
+	w.logf("%s overlapped by a request (hook before inner call: %v, fired: %v)", what, before, fired)
 }
 
 func (w *world) logf(f string, a ...any) {
@@ -299,7 +377,8 @@ func newWorld(t *rapid.T, scripted bool) *world {
 			return w.pending, nil
 		}))
 	}
-	rb, err := roundrobin.NewRebalancer(rr, opts...)
+	w.lb = &hookLB{RoundRobin: rr}
+	rb, err := roundrobin.NewRebalancer(w.lb, opts...)
 	if err != nil {
 		t.Fatalf("%v", err)
 	}
@@ -499,5 +578,84 @@ func TestC10_DefaultMeter(t *testing.T) {
 			}
 		}
 		vstat.Case("default|"+strings.Join(w.log, ";"), w.changes >= 2, []string{"default-meter"}, map[string]any{"backoff": w.backoff.String(), "weight_changes": w.changes})
+	})
+}
+
+// TestC10_AdminOverlap: a request completes in the middle of a re-weight / add / removal (the
+// harness owns that schedule through the inner balancer), at a moment when the pool is
+// adjusted and the back-off is over. The configured weights - the re-weighted one included -
+// are what every later restore brings back (d), and the range (a) holds throughout.
+func TestC10_AdminOverlap(t *testing.T) {
+	rapid.Check(t, func(t *rapid.T) {
+		w := newWorld(t, true)
+		defer clock.Unfreeze()
+		n0 := rapid.IntRange(2, 5).Draw(t, "nservers")
+		for i := 0; i < n0; i++ {
+			w.upsert(names[i], rapid.SampledFrom(confWeights[:12]).Draw(t, "conf"))
+		}
+		bms := int64(w.backoff / time.Millisecond)
+		rounds := rapid.IntRange(1, 4).Draw(t, "rounds")
+		adjustedOverlaps := 0
+		for r := 0; r < rounds; r++ {
+			// make some servers outliers and let the rebalancer adjust for a while
+			nb := rapid.IntRange(0, len(w.servers)-1).Draw(t, "nbad")
+			for j, s := range w.servers {
+				s.m.ready = true
+				s.m.rating = 0
+				if j < nb {
+					s.m.rating = rapid.SampledFrom([]float64{0.5, 0.9, 1}).Draw(t, "badRating")
+				}
+			}
+			w.logf("ratings: first %d bad", nb)
+			for k := rapid.IntRange(0, 6).Draw(t, "adjustments"); k > 0; k-- {
+				w.advance(step(bms + 1))
+				w.request()
+			}
+			if rapid.IntRange(0, 3).Draw(t, "expire") != 0 {
+				w.advance(step(bms + 1))
+			}
+			adjusted := false
+			for i, x := range w.weights() {
+				adjusted = adjusted || x != w.servers[i].conf
+			}
+			before := rapid.Bool().Draw(t, "hookBefore")
+			switch op := rapid.IntRange(0, 3).Draw(t, "admin"); {
+			case op <= 1 || len(w.servers) <= 2 && op == 3: // re-weight a member
+				s := w.servers[rapid.IntRange(0, len(w.servers)-1).Draw(t, "who")]
+				conf := rapid.SampledFrom(confWeights[:12]).Draw(t, "newConf")
+				w.overlapped(before, fmt.Sprintf("re-weight(%s,%d)", s.url, conf), func() error { return w.rb.UpsertServer(s.url, roundrobin.Weight(conf)) })
+				s.conf = conf
+			case op == 2 && len(w.servers) < len(names): // add a server
+				var name string
+				for _, n := range names {
+					if w.find(n) < 0 {
+						name = n
+						break
+					}
+				}
+				u, _ := url.Parse(name)
+				conf := rapid.SampledFrom(confWeights[:12]).Draw(t, "addConf")
+				w.pending = &meter{ready: true}
+				w.overlapped(before, fmt.Sprintf("add(%s,%d)", name, conf), func() error { return w.rb.UpsertServer(u, roundrobin.Weight(conf)) })
+				w.servers = append(w.servers, &srv{url: u, conf: conf, m: w.pending})
+			case op == 3: // remove a member
+				i := rapid.IntRange(0, len(w.servers)-1).Draw(t, "rm")
+				u := w.servers[i].url
+				w.overlapped(before, fmt.Sprintf("remove(%s)", u), func() error { return w.rb.RemoveServer(u) })
+				w.servers = append(w.servers[:i], w.servers[i+1:]...)
+			default:
+				s := w.servers[0]
+				w.overlapped(before, fmt.Sprintf("re-weight(%s,%d)", s.url, s.conf), func() error { return w.rb.UpsertServer(s.url, roundrobin.Weight(s.conf)) })
+			}
+			if adjusted {
+				adjustedOverlaps++
+			}
+			w.logf("weights %v", w.weights())
+			w.checkRange(w.weights(), "after an overlapped administration call")
+			// any further change of membership or of a configured weight restores all configured weights
+			s := w.servers[rapid.IntRange(0, len(w.servers)-1).Draw(t, "touch")]
+			w.upsert(s.url.String(), s.conf)
+		}
+		vstat.Case("overlap|"+strings.Join(w.log, ";"), adjustedOverlaps > 0, []string{"admin-overlapped-by-request"}, map[string]any{"backoff": w.backoff.String(), "steps": w.log})
 	})
 }
